@@ -121,7 +121,7 @@ def run_cases(ctx, cases, readers=True):
                 if d and n_dis < 25:
                     n_dis += 1
                     rep.disagree('H-nmea', {'entry': 'decode', 'strict': strict, 'parts': [p.hex() for p in parts],
-                                            'text': [repr(p)[:120] for p in parts], 'kind': kind}, m[:2] + (d,), res[:2])
+                                            'text': [repr(p)[:120] for p in parts], 'kind': kind}, nc.short_outcome(m) + (d,), nc.short_outcome(res))
         if len(parts) == 1:
             rep.case(('produce', parts[0]), kind=klabel)
             res = nc.impl_produce(parts[0])
@@ -133,7 +133,7 @@ def run_cases(ctx, cases, readers=True):
                 if d and n_dis < 25:
                     n_dis += 1
                     rep.disagree('H-nmea', {'entry': 'decode_nmea_line', 'raw': parts[0].hex(), 'text': repr(parts[0])[:160],
-                                            'kind': kind}, m_prod[i][:2] + (d,), res[:2])
+                                            'kind': kind}, nc.short_outcome(m_prod[i]) + (d,), nc.short_outcome(res))
             if readers:
                 reader_oracle(rep, parts[0])
             if i % 1500 == 7:
@@ -152,6 +152,8 @@ def run(ctx):
         nc.prim_harness(ctx, ctx.budget(1500, 20000), full=not ctx.quick)
     run_cases(ctx, generate(ctx))
     run_readers(ctx)
+    if ctx.rep.disagreements or ctx.rep.violations:
+        return      # the generator self-check below is only meaningful when implementation and model agree
     for k in ('produce-outcome:AIS', 'produce-outcome:GH', 'produce-outcome:InvalidNMEAMessageException',
               'produce-outcome:UnknownMessageException', 'produce-outcome:NonPrintableCharacterException',
               'decode-outcome:Ok', 'decode-outcome:InvalidNMEAChecksum', 'decode-outcome:MissingMultipartMessageException',
